@@ -171,6 +171,8 @@ pub struct DeliberateUnwind;
 /// End a subscription: 0 = `unsubscribe()`, 1 = its `SubscriptionGuard` goes out of scope, 2 = the guard is
 /// dropped by a panic unwinding through the scope that owns it (the program catches the panic and goes on).
 pub fn release<U: Subscription>(u: U, how: u32) {
+  // SX_NO_UNWIND_DROP: the check's fallback after a process abort (a panic inside the drop, while unwinding)
+  let how = if how == 2 && std::env::var_os("SX_NO_UNWIND_DROP").is_some() { 1 } else { how };
   match how {
     0 => u.unsubscribe(),
     1 => drop(u.unsubscribe_when_dropped()),
